@@ -240,6 +240,10 @@ def load_db(cfg, drivers=None, log=None):
             os.replace(pk + '.tmp', pk)
         except Exception:
             pass
+    if os.environ.get('VERIF_RENAME'):
+        # development self-test: every parameter and local variable of the analysed program gets another name;
+        # a rule whose verdict changes depends on an identifier it must not depend on
+        facts.rename_names(db, os.environ['VERIF_RENAME'])
     db.extract_s = time.time() - t0
     db.n_tus = len(units)
     db.tree_key = key
